@@ -1,4 +1,5 @@
 import Props.C01
+import Props.Examples
 #print axioms Webauthn.Props.C01.sound
 #print axioms Webauthn.Props.C01.reject_any_deviation
 #print axioms Webauthn.verifyAuth_ok_iff
@@ -7,3 +8,5 @@ import Props.C01
 #print axioms Webauthn.parseFlags_eq_flagRow
 #print axioms Webauthn.parseAuthData_header
 #print axioms Webauthn.clientDataOfJVal_ok
+#print axioms Webauthn.Props.Examples.auth_accepts
+#print axioms Webauthn.Props.Examples.auth_rejects
